@@ -68,6 +68,14 @@ def fmtSet (f : Nat → Bool) : String :=
 
 def stepC33 (toks : List String) : String :=
   match toks with
+  | "mp" :: txs => match txs.mapM parseFlowTx with
+    | some txs =>
+      -- distinct transactions: the same hash list may occur twice (different nonces)
+      let run := txs.foldl (fun (acc : (List Nat × List Tx) × List String) t =>
+        let st := poolAdd acc.1 t
+        (st, acc.2 ++ [if st.2.length = acc.1.2.length then "0" else "1"])) (([], []), [])
+      s!"acc={",".intercalate run.2} dup={fmtSet (run.1.1.contains ·)}"
+    | none => "bad-op"
   | "wflow" :: rest => match parseFlow rest with
     | some steps =>
       let wd := (runHist ([], []) steps).1
